@@ -18,6 +18,7 @@ using namespace vh;
 namespace
 {
 FILE* g_out = stdout;
+bool  g_quiet = false; // '~' prefix: execute the call, log it, take no projection
 
 struct Obs
 {
@@ -135,12 +136,23 @@ void emit(
     const std::vector<std::pair<int, int>>&  rl,
     bool                                     is_tick = false)
 {
-    Obs               o = S.observe(is_tick, std::strcmp(op, "obs") == 0);
+    Obs o;
+    if (g_quiet)
+    {
+        for (int kk = 1; kk <= S.cfg.keys; ++kk)
+            o.skip.push_back(kk);
+    }
+    else
+    {
+        o = S.observe(is_tick, std::strcmp(op, "obs") == 0);
+    }
+    const long qsize = g_quiet ? -1 : static_cast<long>(o.size);
+    const long qsize2 = g_quiet ? -1 : static_cast<long>(o.size2);
     std::ostringstream s;
     s << "{\"e\":\"op\",\"op\":\"" << op << "\",\"k\":" << k << ",\"v\":" << v << ",\"a\":" << a << ",\"d\":" << d
       << ",\"p\":" << p << ",\"var\":" << var << ",\"kv\":" << jl(kv) << ",\"now\":" << g_now_ms.load()
-      << ",\"ret\":" << ret << ",\"rc\":" << rc << ",\"rl\":" << jl(rl) << ",\"size\":" << o.size
-      << ",\"size2\":" << o.size2 << ",\"empty\":" << (o.empty ? 1 : 0) << ",\"cap\":" << o.cap << ",\"obs\":[";
+      << ",\"ret\":" << ret << ",\"rc\":" << rc << ",\"rl\":" << jl(rl) << ",\"size\":" << qsize
+      << ",\"size2\":" << qsize2 << ",\"empty\":" << (o.empty ? 1 : 0) << ",\"cap\":" << o.cap << ",\"obs\":[";
     for (size_t i = 0; i < o.obs.size(); ++i)
         s << (i ? "," : "") << "[" << o.obs[i][0] << "," << o.obs[i][1] << "," << o.obs[i][2] << "]";
     s << "],\"skip\":[";
@@ -201,6 +213,12 @@ int main(int argc, char** argv)
         std::string        op;
         if (!(t >> op) || op[0] == '#')
             continue;
+        g_quiet = false;
+        if (op[0] == '~')
+        {
+            g_quiet = true;
+            op      = op.substr(1);
+        }
         if (op == "cfg")
         {
             finish(S);
